@@ -533,3 +533,9 @@ Proof.
   revert k. induction l as [|x l IH]; intros k Hk; cbn [length] in Hk; [lia|].
   destruct k; cbn [app list_set]; [reflexivity|]. rewrite IH by lia. reflexivity.
 Qed.
+
+Lemma skipn_S_tl {A} (l : list A) k : skipn (S k) l = tl (skipn k l).
+Proof.
+  revert l. induction k as [|k IH]; intros l; [destruct l; reflexivity|].
+  destruct l as [|x l]; [reflexivity|]. cbn [skipn] in *. apply IH.
+Qed.
